@@ -88,7 +88,7 @@ def trace_rate(g):
                 outs += [a, b]
                 row.append((slot.get(p.id, -1), ta, tb))
             meta.append(row)
-        return dict(status="OK", line=xeval_line(tape, outs), meta=meta, untraced=tape.untraced,
+        return dict(status="OK", line=xeval_line(tape, outs), meta=meta, untraced=tape.untraced + getattr(tape, 'rounded_constants', 0),
                     nodes=len(tape.nodes), compares=tape.compares)
 
 
@@ -205,6 +205,8 @@ def trace_predict(kind, beta, teams, which):
             if a is None:
                 return dict(status="NONNUM")
             outs.append(a)
+        # (the predictions are well conditioned: a rounded constant such as 1/N moves them by 1e-14, far below the threshold — they stay
+        # in the rounding-free tier; only operations the tape cannot express take a prediction out of it)
         return dict(status="OK", line=xeval_line(tape, outs), untraced=tape.untraced, nodes=len(tape.nodes),
                     ranks=ranks if which == "rank" else None)
 
@@ -276,7 +278,7 @@ def exact_leaf_points(res, points, label, kind_on_mismatch="correspondence", drv
             a, _ = out_id(tape, r)
             if a is None:
                 continue
-            traced.append(((fn, x, t), xeval_line(tape, [a]), tape.untraced))
+            traced.append(((fn, x, t), xeval_line(tape, [a]), tape.untraced + getattr(tape, 'rounded_constants', 0)))
     lines = []
     for (fn, x, t), line, _u in traced:
         lines.append(line)
@@ -376,7 +378,7 @@ def exact_leagues(res, rng, n, label="league (exact)", drv=None):
                         break
                     outs += [a, b]
             line = xeval_line(tape, outs) if status == "OK" else None
-            untraced = tape.untraced
+            untraced = tape.untraced + getattr(tape, 'rounded_constants', 0)
         res.count("exact_league_status_" + status)
         if status != "OK":
             continue
